@@ -18,6 +18,7 @@ import click
 from rich import pretty
 from rich.console import Console
 from rich.logging import RichHandler
+from rich.markup import escape
 from rich.panel import Panel
 from rich.table import Table
 from rich.tree import Tree
@@ -117,11 +118,12 @@ def describe_packets(file_path: Path) -> None:
 
     npackets = len(packets)
     if npackets == 0:
-        console.print(f"No packets found in {file_path}")
+        console.print(f"No packets found in {escape(str(file_path))}")
         return
 
     # Create table for packet data display
-    table = Table(title=f"[bold magenta]{file_path}: {npackets} packets[/bold magenta]",
+    # The path is text, not console markup: a directory or file name may contain square brackets
+    table = Table(title=f"[bold magenta]{escape(str(file_path))}: {npackets} packets[/bold magenta]",
                   show_header=True,
                   header_style="bold magenta")
 
